@@ -1,6 +1,7 @@
 /-
   C13 — Map tile arithmetic is a consistent quadtree of the mercator square.
-  PROPERTY THEOREMS about the model `Orb.Tile` (maptile/tile.go, integer part).
+  PROPERTY THEOREMS about the models `Orb.Tile` (maptile/tile.go, integer part) and
+  `Orb.TileGeo` (Fraction / At / Bound / Center + mercator.ToGeo; second half of this file).
 
   `V t` is the property's quantifier: a valid tile with zoom 0..30.
   The abstract spec is the ancestor relation of the tile pyramid
@@ -8,6 +9,7 @@
   by `ancestorAt_eq_iterate_parent`.
 -/
 import OrbProofs.C13Lemmas
+import OrbProofs.C13GeoLemmas
 
 namespace Orb.Tile
 
@@ -74,3 +76,167 @@ example : V ⟨5, 9, 4⟩ ∧ IsAncestor ⟨5, 9, 4⟩ ⟨21, 38, 6⟩ ∧ conta
   exact ⟨by decide, by decide⟩
 
 end Orb.Tile
+
+/-! ## Geography: `At`, `Bound`, `Center`
+
+  The model `Orb.TileGeo` takes the transcendental maps as parameters of an environment `E`:
+  `E.mercY` (latitude ↦ normalised mercator ordinate, Go: `0.5 + 0.5*log((1+sin φ)/(1−sin φ))/(−2π)`),
+  `E.latOf` (ordinate ↦ latitude, Go: `2*atan(exp(π − 2π y))*(180/π) − 90`), `E.floorU32` (`uint32(f)`),
+  `E.ofNat` (`float64(n)`), `E.latMax` (the literal 85.0511).  The theorems hold over every ordered field
+  under the NAMED hypotheses (definitions in `C13GeoLemmas.lean`):
+
+  * `CastExact`        `E.ofNat n = n`
+  * `FloorSpec`        `n ≤ x < n+1 → E.floorU32 x = n`
+  * `LatMaxNonneg`     `0 ≤ E.latMax`
+  * `LatOfStrictAnti`  `a < b → E.latOf b < E.latOf a`
+  * `MercYAntitone`    `a ≤ b → E.mercY b ≤ E.mercY a`
+  * `MercYLatOf`       `0 ≤ y ≤ 1 → E.mercY (E.latOf y) = y`
+  * `LatOfMercY`       `−latMax ≤ φ ≤ latMax → E.latOf (E.mercY φ) = φ`
+  * `ClampInside`      `E.latMax < E.latOf 0 ∧ E.latOf 1 < −E.latMax`   (85.0511 < 85.05112878…)
+
+  They are facts of real analysis about the Gudermannian pair, NOT proved here and NOT true of
+  float64 `sin/log/atan/exp` to the last bit; the float-level agreement of the code with this model
+  (same arithmetic on top of Go's own libm values) is what the correspondence run checks.
+-/
+
+namespace Orb.TileGeo
+open Orb Orb.Tile
+
+section geo
+variable {α : Type} [Field α] [LinearOrder α] [IsStrictOrderedRing α]
+
+/-- The tile found for a longitude in `[−180, 180]` and ANY latitude (clamped beyond ±latMax) is
+    valid.  `lon = 180` gives the fraction `2^z` and relies on the last-column clamp (fix 440399b). -/
+theorem at_valid (E : Env α) (hc : CastExact E) (hf : FloorSpec E)
+    (hanti : MercYAntitone E) (h1 : MercYLatOf E) (h2 : LatOfMercY E) (hin : ClampInside E)
+    (ll : Pt α) (z : Nat) (hz : z ≤ 31) (hlo : -180 ≤ ll.x) (hhi : ll.x ≤ 180) :
+    (at_ E ll z).x < 2 ^ z ∧ (at_ E ll z).y < 2 ^ z ∧ (at_ E ll z).z = z :=
+  at_valid' E hc hf hanti h1 h2 hin ll z hz hlo hhi
+
+/-- For a longitude in `[−180, 180)` and an unclamped latitude the bound of the found tile contains
+    the point — in the half-open sense (`InCell`: west/north edges included, east/south excluded),
+    which is what makes the tile unique. -/
+theorem at_bound_contains (E : Env α) (hc : CastExact E) (hf : FloorSpec E)
+    (hlat : LatOfStrictAnti E) (hanti : MercYAntitone E) (h1 : MercYLatOf E) (h2 : LatOfMercY E)
+    (hin : ClampInside E)
+    (ll : Pt α) (z : Nat) (hz : z ≤ 31) (hlo : -180 ≤ ll.x) (hhi : ll.x < 180)
+    (hlatlo : -E.latMax ≤ ll.y) (hlathi : ll.y ≤ E.latMax) :
+    InCell (bound E (at_ E ll z) 0) ll :=
+  at_bound_contains' E hc hf hlat hanti h1 h2 hin ll z hz hlo hhi hlatlo hlathi
+
+/-- … hence also in the closed sense of `orb.Bound.Contains`. -/
+theorem at_bound_contains_closed (E : Env α) (hc : CastExact E) (hf : FloorSpec E)
+    (hlat : LatOfStrictAnti E) (hanti : MercYAntitone E) (h1 : MercYLatOf E) (h2 : LatOfMercY E)
+    (hin : ClampInside E)
+    (ll : Pt α) (z : Nat) (hz : z ≤ 31) (hlo : -180 ≤ ll.x) (hhi : ll.x < 180)
+    (hlatlo : -E.latMax ≤ ll.y) (hlathi : ll.y ≤ E.latMax) :
+    InBound (bound E (at_ E ll z) 0) ll :=
+  at_bound_contains_closed' E hc hf hlat hanti h1 h2 hin ll z hz hlo hhi hlatlo hlathi
+
+/-- Latitudes beyond the clamp are snapped to the last row (south) / row 0 (north). -/
+theorem at_clamped_row (E : Env α) (hc : CastExact E) (hf : FloorSpec E) (hm : LatMaxNonneg E)
+    (ll : Pt α) (z : Nat) (hz : z ≤ 31) :
+    (ll.y < -E.latMax → (at_ E ll z).y = 2 ^ z - 1) ∧ (E.latMax < ll.y → (at_ E ll z).y = 0) :=
+  at_clamped_row' E hc hf hm ll z hz
+
+/-- The centre of a valid tile maps back to the tile — PROVIDED the centre latitude is within the
+    clamp (`_partial`: the full statement below is false, known finding C13-polar-clamp-center). -/
+theorem center_maps_back_partial (E : Env α) (hc : CastExact E) (hf : FloorSpec E)
+    (hlat : LatOfStrictAnti E) (hanti : MercYAntitone E) (h1 : MercYLatOf E) (h2 : LatOfMercY E)
+    (t : Tile) (hz : t.z ≤ 31) (hx : t.x < 2 ^ t.z) (hy : t.y < 2 ^ t.z)
+    (hclo : -E.latMax ≤ (center E t).y) (hchi : (center E t).y ≤ E.latMax) :
+    at_ E (center E t) t.z = t :=
+  center_maps_back' E hc hf hlat hanti h1 h2 t hz hx hy hclo hchi
+
+/-- FULL statement of "the centre of a tile maps back to that tile": every valid tile, no side
+    condition on the centre latitude.  It is FALSE for the code as it is — known finding
+    C13-polar-clamp-center — see `center_polar_rows_fail` and `center_maps_back_full_fails`. -/
+def center_maps_back_full (E : Env α) : Prop :=
+  ∀ t : Tile, t.z ≤ 30 → t.x < 2 ^ t.z → t.y < 2 ^ t.z → at_ E (center E t) t.z = t
+
+/-- The polar rows: a tile whose centre latitude is beyond the clamp and that is not in the edge
+    row does NOT map back.  For the real projection such rows exist from zoom 18 on, between 85.0511
+    and 85.05112878 (e.g. tile (950460,1,21), replayed by `./check C13`). -/
+theorem center_polar_rows_fail (E : Env α) (hc : CastExact E) (hf : FloorSpec E) (hm : LatMaxNonneg E)
+    (t : Tile) (hz : t.z ≤ 31) :
+    (E.latMax < (center E t).y → t.y ≠ 0 → at_ E (center E t) t.z ≠ t) ∧
+    ((center E t).y < -E.latMax → t.y ≠ 2 ^ t.z - 1 → at_ E (center E t) t.z ≠ t) :=
+  center_polar_rows_fail' E hc hf hm t hz
+
+/-- Witness: an environment with ALL the named hypotheses in which `center_maps_back_full` fails. -/
+theorem center_maps_back_full_fails :
+    ∃ E : Env ℚ, (CastExact E ∧ FloorSpec E ∧ LatMaxNonneg E ∧ LatOfStrictAnti E ∧
+      MercYAntitone E ∧ MercYLatOf E ∧ LatOfMercY E ∧ ClampInside E) ∧ ¬ center_maps_back_full E :=
+  center_maps_back_full_fails'
+
+/-- Neighbouring tiles share their edge coordinates exactly: the east edge of `t` IS the west edge of
+    its right neighbour and the south edge of `t` IS the north edge of the tile below. -/
+theorem neighbours_share_edges (E : Env α) (hc : CastExact E) (t : Tile) (hz : t.z ≤ 31)
+    (hy : t.y + 1 ≤ 2 ^ t.z) :
+    (bound E t 0).max.x = (bound E ⟨t.x + 1, t.y, t.z⟩ 0).min.x ∧
+    (bound E t 0).min.y = (bound E ⟨t.x, t.y + 1, t.z⟩ 0).max.y :=
+  neighbours_share_edges' E hc t hz hy
+
+end geo
+
+/-- The same, for ANY carrier (no field, no order axioms — in particular `Float`): all that is used
+    is `float64(n+1) = float64(n) + 1`, `a ± 0 = a` and that the y clamps are inactive; after that
+    both sides are the SAME term `360*(v/maxtiles − 0.5)` resp. `latOf(v/maxtiles)` of the same `v`.
+    That is why the shared edges agree bit-for-bit in float64 and not just up to rounding. -/
+theorem neighbours_share_edges_any {β : Type} [Add β] [Sub β] [Mul β] [Div β] [Neg β] [LT β] [DecidableLT β]
+    [OfNat β 0] [OfNat β 1] [OfNat β 2] [OfNat β 90] [OfNat β 180] [OfNat β 360]
+    (E : Env β) (t : Tile)
+    (hsucc : ∀ n : Nat, E.ofNat (n + 1) = E.ofNat n + 1)
+    (hadd0 : ∀ a : β, a + 0 = a) (hsub0 : ∀ a : β, a - 0 = a)
+    (hnoclampN : ¬ (maxTiles32 E t.z < E.ofNat t.y + 1))
+    (hnoclamp0 : ¬ (E.ofNat t.y + 1 < 0)) :
+    (bound E t 0).max.x = (bound E ⟨t.x + 1, t.y, t.z⟩ 0).min.x ∧
+    (bound E t 0).min.y = (bound E ⟨t.x, t.y + 1, t.z⟩ 0).max.y :=
+  neighbours_share_edges_gen E t hsucc hadd0 hsub0 hnoclampN hnoclamp0
+
+section geo2
+variable {α : Type} [Field α] [LinearOrder α] [IsStrictOrderedRing α]
+
+/-- The children's bounds tile the parent's bound: their outer edges ARE the parent's edges and their
+    inner edges ARE the parent's midlines `midLon t` / `midLat E t` (uses `x/2^z = (2x)/2^(z+1)`;
+    in float64 that identity is exact too, divisions by powers of two being exact). -/
+theorem children_bounds_tile_parent (E : Env α) (hc : CastExact E) (t : Tile) (hz : t.z ≤ 30)
+    (hx : t.x < 2 ^ t.z) (hy : t.y < 2 ^ t.z) :
+    (children t).map (fun c => bound E c 0) =
+      let b := bound E t 0
+      let mx : α := midLon t
+      let my : α := midLat E t
+      [ ⟨⟨b.min.x, my⟩, ⟨mx, b.max.y⟩⟩,
+        ⟨⟨mx, my⟩, ⟨b.max.x, b.max.y⟩⟩,
+        ⟨⟨mx, b.min.y⟩, ⟨b.max.x, my⟩⟩,
+        ⟨⟨b.min.x, b.min.y⟩, ⟨mx, my⟩⟩ ] :=
+  children_bounds' E hc t hz hx hy
+
+/-- … with the midlines strictly inside, … -/
+theorem children_midlines_inside (E : Env α) (hc : CastExact E) (hlat : LatOfStrictAnti E) (t : Tile)
+    (hz : t.z ≤ 31) (hy : t.y < 2 ^ t.z) :
+    (bound E t 0).min.x < midLon t ∧ midLon t < (bound E t 0).max.x ∧
+    (bound E t 0).min.y < midLat E t ∧ midLat E t < (bound E t 0).max.y :=
+  mid_strict E hc hlat t hz hy
+
+/-- … so that, pointwise, the four child cells partition the parent cell: a point is in the parent's
+    cell iff it is in some child's cell, and never in two of them. -/
+theorem children_cells_partition (E : Env α) (hc : CastExact E) (hlat : LatOfStrictAnti E)
+    (t : Tile) (hz : t.z ≤ 30) (hx : t.x < 2 ^ t.z) (hy : t.y < 2 ^ t.z) (p : Pt α) :
+    (InCell (bound E t 0) p ↔ ∃ c ∈ children t, InCell (bound E c 0) p) ∧
+    (children t).Pairwise (fun a b => ¬ (InCell (bound E a 0) p ∧ InCell (bound E b 0) p)) :=
+  children_cells_partition' E hc hlat t hz hx hy p
+
+end geo2
+
+/-- Non-vacuity: the named hypotheses are jointly satisfiable (`toyEnv`, an affine pair over ℚ), and
+    in that environment the antimeridian point (180, 0) at zoom 3 lands in the last column
+    (fraction 8 → clamp → 7), row 4. -/
+example :
+    (CastExact toyEnv ∧ FloorSpec toyEnv ∧ LatMaxNonneg toyEnv ∧ LatOfStrictAnti toyEnv ∧
+      MercYAntitone toyEnv ∧ MercYLatOf toyEnv ∧ LatOfMercY toyEnv ∧ ClampInside toyEnv) ∧
+    at_ toyEnv ⟨180, 0⟩ 3 = ⟨7, 4, 3⟩ := by
+  refine ⟨toyEnv_hyps, ?_⟩
+  exact at_toy_example
+
+end Orb.TileGeo
